@@ -319,3 +319,35 @@ Example gvap_fuzzy_somewhere :
   gvap_fuzzy [7; 7; 8; 30] [(0, 10); (4, 11); (10, 12); (20, 13)] 0
   = Ok [(4, 11); (10, 12); (10, 12); (20, 13)].
 Proof. vm_compute. reflexivity. Qed.
+
+(* ---------------- intervalOverlapCheck with a percent threshold ---------------- *)
+
+(* percentThreshold = pn/pd > 0, no time threshold, boundaries not inclusive: the intervals overlap and the overlap is at
+   least that fraction of the total extent covered by the two intervals *)
+Theorem overlap_check_percent s e cs ce pn pd :
+  0 < pn ->
+  overlap_check s e cs ce pn pd 0 false
+  = (let ot := Z.max 0 (Z.min e ce - Z.max s cs) in
+     (0 <? ot) && (pn * (Z.max e ce - Z.min s cs) <=? ot * pd)).
+Proof.
+  intro H. unfold overlap_check. cbv zeta. change (0 <? 0) with false.
+  destruct (Z.ltb_spec 0 pn); [|lia]. cbn [andb]. cbv iota.
+  destruct (0 <? Z.max 0 (Z.min e ce - Z.max s cs)); cbn [andb orb].
+  - destruct (pn * (Z.max e ce - Z.min s cs) <=? Z.max 0 (Z.min e ce - Z.max s cs) * pd); reflexivity.
+  - reflexivity.
+Qed.
+
+(* both thresholds given: the result is the percent condition alone -- once the fraction is reached the final
+   disjunction of the source (overlapFlag or ... or percentOverlapFlag or timeOverlapFlag) returns True whatever the
+   time threshold says; when it is not reached the time threshold is not consulted.  (An observation about the
+   unchanged code, recorded in DESIGN.md; C15 does not say how the two thresholds combine.) *)
+Theorem overlap_check_percent_and_time s e cs ce pn pd th :
+  0 < pn -> 0 < th ->
+  overlap_check s e cs ce pn pd th false = overlap_check s e cs ce pn pd 0 false.
+Proof.
+  intros H H'. rewrite overlap_check_percent by exact H. unfold overlap_check. cbv zeta.
+  destruct (Z.ltb_spec 0 pn); [|lia]. destruct (Z.ltb_spec 0 th); [|lia]. cbn [andb]. cbv iota.
+  destruct (0 <? Z.max 0 (Z.min e ce - Z.max s cs)); cbn [andb orb]; [|reflexivity].
+  destruct (pn * (Z.max e ce - Z.min s cs) <=? Z.max 0 (Z.min e ce - Z.max s cs) * pd); cbn [andb orb]; [|reflexivity].
+  destruct (th <=? Z.max 0 (Z.min e ce - Z.max s cs)); reflexivity.
+Qed.
